@@ -1,7 +1,8 @@
 import WuffsVerif.Common.Line
 import WuffsVerif.Model.Axioms
 import WuffsVerif.Gen.C02_AxiomDefs
-/-! Line driver for C02 (axioms half).  Ops:
+import Driver.C02Flow
+/-! Line driver for C02.  Facts half: `case flow …` / `pt k` (see Driver/C02Flow.lean).  Axioms half, ops:
   name i                -> md=<axioms.md string> | data=<data.go name> | body=<rule read back from the body>
   ax i v0 v1 …          -> holds | premise-false | VIOLATED   (axiom i of axioms.md; vars in sorted-name order)
   impl i v0 v1 …        -> same, for the rule implemented by data.go's reason function i
@@ -59,4 +60,8 @@ def c02Step (l : List String) : String :=
     | _, _ => "bad-op"
   | _ => "bad-op"
 
-def main : IO Unit := Line.runPure c02Step
+def main : IO Unit :=
+  Line.run ({} : C02Flow.State) (fun st l =>
+    match C02Flow.step st l with
+    | some r => r
+    | none => (st, c02Step l))
